@@ -34,8 +34,11 @@ def word_in(name, text):
 
 
 def option_labels(o):
-    if o["short"]:
+    """(preferred label, alternative label): the short name is preferred unless the long one was asked for."""
+    if o["short"] and o.get("prefer") != "long":
         return "-" + o["short"], "--" + o["long"]
+    if o["short"]:
+        return "--" + o["long"], "-" + o["short"]
     return "--" + o["long"], None
 
 
